@@ -27,7 +27,13 @@ class Monitor:
     def at_quiescence(self, sim, final):
         pass
 
+    def before_restart(self, sim, mode):    # engine about to be abandoned (planned stop at a step boundary)
+        pass
+
     def after_restart(self, sim, mode):
+        pass
+
+    def at_crash(self, sim):                # the crash instant: storage and providers are frozen as they are
         pass
 
 
@@ -44,9 +50,11 @@ class Obs:
         self.base_trees = None
         self.quiesce_steps = []
         self.harness_error = None
+        self.crashes = []
 
 
-def run_case(case, monitors=(), sim_kwargs=None, qcap=S.QCAP, final_quiesce=True, keep_sim=False, pre=None):
+def run_case(case, monitors=(), sim_kwargs=None, qcap=S.QCAP, final_quiesce=True, keep_sim=False, pre=None,
+             on_crash=None):
     obs = Obs()
     kw = dict(sim_kwargs or {})
     sim = S.Sim(case["flavour"], **kw)
@@ -104,12 +112,22 @@ def run_case(case, monitors=(), sim_kwargs=None, qcap=S.QCAP, final_quiesce=True
             elif k == "Q":
                 try:
                     quiesce()
+                    if sim.world.dead and on_crash == "restart":
+                        obs.crashes.append(sim.world.crash_site)
+                        for m in monitors:
+                            m.at_crash(sim)
+                        sim.restart("intact")
+                        for m in monitors:
+                            m.after_restart(sim, "crash")
+                        quiesce()
                 except S.NotQuiescent as ex_:
                     obs.problems.append(("not_quiescent", str(ex_)))
                     break
             elif k == "N":
                 sim.drain_notifications()
             elif k == "R":
+                for m in monitors:
+                    m.before_restart(sim, e[1])
                 sim.restart(e[1])
                 for m in monitors:
                     m.after_restart(sim, e[1])
@@ -119,15 +137,32 @@ def run_case(case, monitors=(), sim_kwargs=None, qcap=S.QCAP, final_quiesce=True
             else:
                 raise ValueError(k)
             if sim.world.dead:
-                break
+                if on_crash == "restart":
+                    # the process died: a new engine starts over whatever storage and providers hold; users carry on
+                    obs.crashes.append(sim.world.crash_site)
+                    for m in monitors:
+                        m.at_crash(sim)
+                    sim.restart("intact")
+                    for m in monitors:
+                        m.after_restart(sim, "crash")
+                else:
+                    break
         if final_quiesce and not sim.world.dead and not any(p[0] == "not_quiescent" for p in obs.problems):
             try:
                 obs.steps_final = quiesce(final=True)
+                if sim.world.dead and on_crash == "restart":
+                    obs.crashes.append(sim.world.crash_site)
+                    for m in monitors:
+                        m.at_crash(sim)
+                    sim.restart("intact")
+                    for m in monitors:
+                        m.after_restart(sim, "crash")
+                    obs.steps_final = quiesce(final=True)
             except S.NotQuiescent as ex_:
                 obs.problems.append(("not_quiescent", str(ex_)))
             obs.trees = (sim.tree(0), sim.tree(1))
         obs.steps_total = sim.steps
-        obs.unhandled = list(_load.unhandled[n_unh0:])
+        obs.unhandled = [u for u in _load.unhandled[n_unh0:] if u[1] != "Crash"]
         del _load.unhandled[n_unh0:]
     except S.Crash:
         raise
